@@ -255,7 +255,8 @@ def gpu_threads_evaluated(rep, wmod, g):
     bad = None
     n = 0
     for op_start, op_stop, sim_start, sim_stop in ((3, 5, 0, 2), (0, 1, 1, 3), (6, 7, 0, 1)):
-        ops = [[100 + r, r, 0, 0, 0, 0, -1, 0, 0] for r in range(7)]
+        from kvstatic.ndarr import NDArr
+        ops = NDArr([[100 + r, r, 0, 0, 0, 0, -1, 0, 0] for r in range(7)])
         for x in range(0, 5):
             for y in range(0, 5):
                 n += 1
